@@ -73,6 +73,21 @@ CHECKS = {
         note="Assumed: Python bytes ordering on equal lengths is big-endian numeric order (A-LEX); int.from_bytes / "
              "to_bytes are inverse on range (A-STRUCT); hashes are functions (A-HASH).",
         technique=PROOF_TECH),
+    'C09': dict(
+        category='proof', design_ref='6/C09',
+        text="ConnectedRemotePeer.handle_block_received is verified path by path (from source, callee contracts for the "
+             "validators, the appliers, the pool, the block store buffer and the broadcast) for a delivery outside bulk "
+             "download: the block becomes part of the chain state only when both validators returned and it applied; then "
+             "it is committed to the store (ghost: the committed sequence grows by exactly this block, the buffer is "
+             "empty) and appended to the relayed sequence iff it equals the new head; a known id, an unknown parent or "
+             "any rejection changes nothing: chain state, buffer, committed blocks, relayed sequence, fallback state are "
+             "the same values and the pool holds the same transactions; an exception leaves either the accepted state "
+             "or no trace. Every write outside the declared frame is a failing :frame obligation.",
+        note="Assumed: sqlite commits a flush atomically (A-SQL, contract of write_blocks_to_disk; round trip = C08 bounded "
+             "check); relay is abstracted by one ghost entry per broadcast_block call; inventory bookkeeping "
+             "(remove_from_inventory) is trusted to touch only this connection; schedules are not modelled. 'Repeated "
+             "delivery has no effect' is the known-id path.",
+        technique=PROOF_TECH + "; path contracts over ghost state (committed blocks, relayed sequence)"),
     'C13': dict(
         category='proof', design_ref='6/C13',
         text="The pool invariant - every pending transaction passed the stand-alone rules and is valid in the ledger "
